@@ -307,7 +307,7 @@ class LogicalNotRule(Contract):
         return "import sys; sys.path.insert(0, %r)\nfrom native import c01\nc01.run_logical_not()\n" % here
 
 
-PARKED = [PowerPower('float')]  # fails on the unchanged tree: candidate defect (notes/C01-c01.md); run with VERIF_C01_PARKED=1
+PARKED = []
 
 
 def contracts():
@@ -315,6 +315,5 @@ def contracts():
     cs = [MultiplyAdd('ab', 'ac'), MultiplyAdd('ab', 'ab'), MultiplyAdd('ab', 'ba'), MultiplyAdd('ab', 'a', False), MultiplyAdd('abc', 'ab'),
           MultiplyAdd('ab', 'cd'), MultiplyAdd('ab', 'abc'), MultiplyAdd('abc', 'cad'),
           PowerPower('int'), PowerPower('even'), MultiplySignAbs(), LogicalNotRule()]
-    if os.environ.get('VERIF_C01_PARKED') == '1':
-        cs += PARKED
+    cs += [PowerPower('float')]  # fails on the unchanged tree: recorded KNOWN FINDING (known_findings.json), carve-out = the even-constant-exponent contract
     return cs
